@@ -22,6 +22,7 @@ def build_doc(seed):
     from odf import meta, dc, style, text
     rng = random.Random(seed)
     doc = OpenDocumentText()
+    doc.text.addElement(text.P(text='first body paragraph'))       # built before the header paragraph further down
     docgen.fill_document(rng, doc)
     doc.meta.addElement(dc.Title(text='T & <t>'))
     if rng.random() < 0.5: doc.meta.addElement(meta.Generator(text='OtherApp/9'))
@@ -44,7 +45,8 @@ def snapshot(doc, with_generator=False):
     idx = {}
     for q, l in doc.element_dict.items():
         if q[1] != 'generator': idx[str(q)] = len(l)
-    qs = [len(doc.getElementsByType(f)) for f in (text.P, text.Span, style.Style, office.Text, style.MasterPage)]
+    # what the queries return: the very elements, in the order returned
+    qs = [[id(e) for e in doc.getElementsByType(f)] for f in (text.P, text.Span, style.Style, office.Text, style.MasterPage)]
     st = [doc.getStyleByName(n) is not None for n in ('S0', 'S1', 'S2', 'HP', 'nope')]
     return {'sections': secs, 'topnode': top, 'index': idx, 'queries': qs, 'styles': st, 'pictures': sorted(doc.Pictures), 'mimetype': doc.mimetype}
 
